@@ -66,8 +66,8 @@ package pebbledb
 
 // A scan reads the index and the records from one snapshot: never from the live database.
 //@ group snapshotproto
-//@   call (*github.com/cockroachdb/pebble.DB).Get assert [C11.snap] false
-//@   call (*github.com/cockroachdb/pebble.DB).NewIter assert [C11.snap] false
+//@   call (*github.com/cockroachdb/pebble.DB).Get transitively assert [C11.snap] false
+//@   call (*github.com/cockroachdb/pebble.DB).NewIter transitively assert [C11.snap] false
 //@ end
 
 //@ func (*PebbleScanner).AddSignature
